@@ -500,6 +500,9 @@ def prepare(rep, harnesses=('pure',), sanitize=None, prove_it=True, proof_timeou
     ctx.consts = consts
     if not ok:
         ctx.broken.append(('translator', msg))
+    elif consts and consts.get('SOFT_MISSED'):
+        # inline-literal anchors that no longer match: recorded values are used and the correspondence decides (gen_consts.py)
+        rep.cov['translator_soft_anchors_missed'] = consts['SOFT_MISSED']
     ctx.proof = None
     if prove_it:
         if ok:
